@@ -660,6 +660,22 @@ func (s *ResettableKeystore) handleResetOp(op resetOp) {
 	}
 
 	if op.success {
+		// Persist the new active namespace marker before committing to the
+		// swap. If the marker cannot be written, the previous namespace is
+		// still the one a restart will open, so it must stay the active one
+		// and must not be torn down: abort the swap instead.
+		activeValue := []byte{1 - s.activeNamespace}
+		if err := s.metaDs.Put(ctx, activeNamespaceKey, activeValue); err != nil {
+			s.logger.Errorf("keystore: aborting swap, failed to persist active namespace marker: %v", err)
+			abortErr = fmt.Errorf("%w: failed to persist active namespace marker: %w", ErrResetAborted, err)
+			op.success = false
+		} else if err := s.metaDs.Sync(ctx, activeNamespaceKey); err != nil {
+			// Sync to ensure marker is persisted
+			s.logger.Warnf("keystore: failed to sync active namespace marker: %v", err)
+		}
+	}
+
+	if op.success {
 		// Swap the active datastore.
 		oldDs := s.ds
 		s.ds = s.altDs
@@ -669,17 +685,6 @@ func (s *ResettableKeystore) handleResetOp(op resetOp) {
 		// Toggle the active namespace index
 		s.activeNamespace = 1 - s.activeNamespace
 		s.logger.Infof("keystore: swapped active namespace to %d (size=%d)", s.activeNamespace, s.size)
-		// Persist the new active namespace
-		activeValue := []byte{s.activeNamespace}
-
-		// Write the active namespace marker
-		if err := s.metaDs.Put(ctx, activeNamespaceKey, activeValue); err != nil {
-			s.logger.Errorf("keystore: failed to persist active namespace marker: %v", err)
-		}
-		// Sync to ensure marker is persisted
-		if err := s.metaDs.Sync(ctx, activeNamespaceKey); err != nil {
-			s.logger.Warnf("keystore: failed to sync active namespace marker: %v", err)
-		}
 	}
 	// Tear down the unused datastore (old active after swap, or partial
 	// alt on failure).
